@@ -315,6 +315,67 @@ def gen_bool(rng, n, regs=REG_BOOL):
     return out
 
 
+def gen_bool_seq(rng, n, regs=REG_BOOL):
+    """BSEQ: a few path sets added REPEATEDLY, item by item in a random interleaved order, as closed subject, open subject
+    and clip (directly or through ReuseableDataContainer64 objects): coincident closed paths, open paths lying on closed
+    ones, the same polygon as subject and clip.  Biased towards Xor/EvenOdd and the PolyTree overloads (owner/split
+    bookkeeping), where coincident edges produce split and re-joined output rings.
+    `twice`: one container is added to the same clipper a second time (kind 8)."""
+    out = []
+    for i in range(n):
+        name, M = pick_regime(rng, regs, i)
+        nsets = rng.range(1, 3)
+        sets = []
+        for _ in range(nsets):
+            k = rng.below(8)
+            if k == 0:      # abutting rectangles with a collinear point and a closing duplicate, a short open path, a single point
+                s0 = rng.range(2, 6) * 10
+                ps = [[(0, 0), (s0 // 2, 0), (s0, 0), (s0, s0), (0, s0), (0, 0)], [(s0, 0), (2 * s0, 0), (2 * s0, s0), (s0, s0)],
+                      [(s0 // 2, s0), (3 * s0 // 2, s0), (3 * s0 // 2, 5 * s0 // 3), (s0 // 2, 5 * s0 // 3)]]
+                if rng.chance(1, 2):
+                    ps.append([(s0 // 6, s0 // 6), (5 * s0 // 6, s0 // 6)])
+                if rng.chance(1, 2):
+                    ps.append([(s0 // 12, s0 // 12)])
+                sets.append(ps)
+            elif k == 1:
+                sets.append([polys.rand_polygon(rng, rng.range(3, 5), 12) for _ in range(rng.range(1, 3))])
+            elif k == 2:
+                sets.append(shape(rng, rng.choice([9, 10, 21, 24]))[0])
+            else:
+                sets.append(shape(rng)[0])
+        items = []
+        for _ in range(rng.range(2, 9)):
+            ps = rng.choice(sets)
+            if rng.chance(1, 3) and len(ps) > 1:
+                ps = [rng.choice(ps)]
+            kind = rng.choice([0, 0, 0, 1, 1, 2])
+            if rng.chance(1, 5):
+                kind += 4
+            items.append((kind, ps))
+        twice = rng.chance(1, 12)
+        if twice:
+            pos = rng.below(len(items))
+            items.insert(pos, (4 + rng.choice([0, 1, 2]), rng.choice(sets)))
+            items.insert(rng.range(pos + 1, len(items)), (8, []))
+        placed = place(rng, [p for _, ps in items for p in ps], M) if not rng.chance(1, 3) else None
+        if placed is not None and (M < 4 * max(1, maxabs([p for _, ps in items for p in ps])) or True):
+            # one common transformation for all items keeps coincident paths coincident
+            allp = [p for _, ps in items for p in ps]
+            m = max(1, maxabs(allp))
+            kk = max(1, M // (2 * m)) if rng.chance(1, 2) else 1
+            dx = rng.choice([0, 0, M - m * kk, -(M - m * kk)]) if M > 4 * m * kk else 0
+            dy = rng.choice([0, 0, M - m * kk, -(M - m * kk)]) if M > 4 * m * kk else 0
+            items = [(k, [[(max(-M, min(M, x * kk + dx)), max(-M, min(M, y * kk + dy))) for x, y in p] for p in ps]) for k, ps in items]
+        ct = rng.choice([4, 4, 4, 1, 2, 3])
+        fr = rng.choice([0, 0, 0, 1, 2, 3])
+        mode = rng.choice([1, 3, 1, 3, 5, 7, 0, 2])
+        le = maxabs([p for _, ps in items for p in ps]) <= P29
+        line = 'BSEQ %d %d %d %d %d %d %s' % (ct, fr, rng.below(2), rng.below(2), mode, len(items),
+                                           ' '.join('%d %s' % (k, fmt_paths(ps)) for k, ps in items))
+        out.append(case(line, name, le, 'seq-twice' if twice else 'seq'))
+    return out
+
+
 def gen_bool_d(rng, n):
     """ClipperD / PathsD functions / export D: integer lattice shapes divided by 10^prec; scaled magnitudes stay <= 2^62 except
     for a few deliberately out-of-range cases (documented range error -> Clipper2Exception / error code)."""
@@ -627,6 +688,19 @@ FIXED = [
     ('XMISC', 'tiny', True, 'misc'),
     ('OFF 2 0 0 0 2 3 1 0 0 1 0', 'tiny', True, 'callback-empty-path'),
     ('OFF 2 0 0 0 2 3 1 0 2 1 1 5 5', 'tiny', True, 'callback-one-point'),
+    # RamerDouglasPeucker with epsilon = NaN on a collinear path
+    ('RDP nan 1 5 0 0 1 0 2 0 3 0 4 0', 'tiny', True, 'rdp-nan'),
+    ('RDPD nan 1 5 0 0 1 0 2 0 3 0 4 0', 'tiny', True, 'rdp-nan'),
+    # an exception inside ClipperOffset::Execute(delta, PolyTree64&): NaN delta, round join, single point -> Ellipse(NaN)
+    ('OFF 2 0.25 0 0 1 nan 1 2 0 1 1 5 5', 'tiny', False, 'offset-tree-exception'),
+    # CheckSplitOwner recursion (reported through C12): coincident closed/open/clip paths, Xor/EvenOdd into a PolyTree
+    ('BSEQ 4 0 1 0 1 16 0 1 6 0 0 30 0 60 0 60 60 0 60 0 0 0 1 4 60 0 120 0 120 60 60 60 2 1 6 0 0 30 0 60 0 60 60 0 60 0 0 2 1 4 60 0 120 0 120 60 60 60 '
+     '0 1 3 50 0 120 60 40 110 1 1 3 -10 50 60 55 130 40 1 1 2 30 -20 35 130 1 1 6 0 0 30 0 60 0 60 60 0 60 0 0 0 1 6 0 0 30 0 60 0 60 60 0 60 0 0 '
+     '0 1 4 60 0 120 0 120 60 60 60 0 1 4 30 60 90 60 90 100 30 100 1 1 6 0 0 30 0 60 0 60 60 0 60 0 0 1 1 4 30 60 90 60 90 100 30 100 '
+     '0 1 6 0 0 30 0 60 0 60 60 0 60 0 0 0 1 4 60 0 120 0 120 60 60 60 0 1 4 30 60 90 60 90 100 30 100', 'small', True, 'seq-checksplitowner'),
+    # the same ReuseableDataContainer64 added twice to one Clipper64 (reported through C12)
+    ('BSEQ 2 2 1 0 0 3 4 2 4 10 10 90 20 80 90 20 70 3 50 0 120 60 40 110 5 3 3 -10 50 60 55 130 40 2 30 -20 35 130 4 0 100 50 20 100 100 150 20 8 0',
+     'small', True, 'seq-twice'),
 ]
 
 
@@ -639,6 +713,7 @@ def gen_all(rng, scale=1.0):
     n = lambda k: max(1, int(k * scale))
     out = fixed_cases()
     out += gen_bool(rng.fork(1), n(2600))
+    out += gen_bool_seq(rng.fork(9), n(1200))
     out += gen_bool_d(rng.fork(2), n(700))
     out += gen_offset(rng.fork(3), n(1600))
     out += gen_rect(rng.fork(4), n(900))
